@@ -111,6 +111,9 @@ def _init(run, prog, cls):
     run.need(base_fields, "the base tracker is not stored")
     bf = base_fields[0]
     t = s.fields[bf]
+    run.need(t[0] not in ("partial", "closure", "lambda"),
+             f"the base tracker is kept inside a callable (self.{bf} = {ir.show_nl(t)[:80]}); what that callable hands out is "
+             f"not decided")
     run.check(t[0] == "new" and t[2] == "deepcopy" and t[3] == (bp,), "TYPESTATE", "init.base-copy",
               f"{s.path}:{s.fn.lineno}", f"{CLS}.__init__", f"self.{bf} = {ir.show_nl(t)}",
               f"the base tracker must be deep-copied on construction (later use of the caller's object must not leak "
@@ -216,6 +219,16 @@ def _update(run, prog, cls):
                     run.fail("TYPESTATE", "U2.fresh", f"{s.path}:{c.line}", fq, f"new tracker = {ir.show_nl(v)}",
                              f"[{gtxt}] a new key must get a fresh deepcopy of the base tracker, it gets {ir.show_nl(v)}")
                 if not adds:
+                    # the new keys may be collected in a container of the call and registered in one go afterwards:
+                    # that bookkeeping is not followed -- no verdict
+                    kept = [e.recv for e in p.events if isinstance(e, ir.Mut) and e.method in ("append", "add", "insert")
+                            and key in e.args and e.recv[0] == "new"]
+                    for ev, _ in walk(s.events):
+                        if isinstance(ev, (ir.Mut, ir.Call)) and getattr(ev, "method", None) in ("update", "__ior__") and \
+                                (getattr(ev, "recv", None) == K or getattr(ev, "callee", None) == f"self.{kf}") and \
+                                any(k in ir.subterms(a) for a in ev.args for k in kept):
+                            raise AnalysisError(f"{fq}: new keys are collected in a local container and registered later "
+                                                f"(line {ev.line}); this bookkeeping is not decided")
                     bad = True
                     run.fail("TYPESTATE", "U2.register", f"{s.path}:{c.line}", fq, "new key not registered",
                              f"[{gtxt}] a tracker is created for a new key but the key is not added to the tracked keys")
